@@ -402,6 +402,11 @@ func ruleDistinct(r *Run) {
 			bad = true
 			o.Fail(r.pos(mu.Pos()), "the remembered key is not (the listed label, its value on this record): label ok=%v value ok=%v", okLabel, okValue)
 		}
+	} else if keyCell(lk.Index) == keyCell(mu.Key) {
+		// a key that is not a (label, value) pair: a value seen under one label would count as seen
+		// under every other listed label
+		bad = true
+		o.Fail(r.pos(mu.Pos()), "values are remembered under %s, which does not include the label they were seen under: `distinct a, b` treats a value of a as a duplicate of b", describe(mu.Key, 1))
 	}
 	type tc struct {
 		present, seen bool
